@@ -38,7 +38,38 @@ def run(p: Project, tier: str) -> Result:
     check_combiner(ws['Combiner'], r)
     check_splitter(ws['Splitter'], r)
     check_pallet(p, r)
+    check_recipe_is_the_users(p, r)
     return r
+
+
+def check_recipe_is_the_users(p, r):
+    """R6: "exactly target_quantity_of_each_item[i] items" is about the vector the user configured - also a quantity of 0 for an in-edge that contributes
+    nothing to this product.  The attribute is written once, in the constructor, from the constructor parameter, unchanged; any other write (a
+    "normalisation" in reset(), `int(q or 1)`, padding) makes the combiner pack a recipe the user did not ask for."""
+    r.rule('C16.R6', 'the recipe vector is stored once, unchanged, from the constructor argument and never rewritten', 1)
+    raw = p.raw()
+    n = 0
+    for rel, m in sorted(raw.modules.items()):
+        for cls in [c for c in ast.walk(m.tree) if isinstance(c, ast.ClassDef) and c.name == 'Combiner']:
+            for fn in [f for f in cls.body if isinstance(f, ast.FunctionDef)]:
+                params = {a.arg for a in fn.args.args}
+                for st in ast.walk(fn):
+                    tg = st.targets if isinstance(st, ast.Assign) else ([st.target] if isinstance(st, (ast.AugAssign, ast.AnnAssign)) else [])
+                    for t in tg:
+                        base = t.value if isinstance(t, ast.Subscript) else t
+                        if isinstance(base, ast.Attribute) and isinstance(base.value, ast.Name) and base.value.id == 'self' and base.attr == 'target_quantity_of_each_item':
+                            n += 1
+                            key = f'{rel}::Combiner.{fn.name}::recipe-write#{n}'
+                            ok = fn.name == '__init__' and isinstance(st, ast.Assign) and not isinstance(t, ast.Subscript) \
+                                and isinstance(st.value, ast.Name) and st.value.id in params
+                            if ok:
+                                r.ok('C16.R6', key, 'stored from the constructor argument', src(rel), st.lineno)
+                            else:
+                                r.fail('C16.R6', key, f'the recipe is (re)written in Combiner.{fn.name} with `{ast.unparse(st.value) if getattr(st, "value", None) is not None else "?"}`: '
+                                                      f'the combiner packs a vector the user did not configure (a quantity 0 turned into 1, a padded entry ...)',
+                                       src(rel), st.lineno)
+    if n == 0:
+        raise AnalysisError('C16.R6: no write of Combiner.target_quantity_of_each_item found (anchor vanished)')
 
 
 def check_pallet(p, r):
